@@ -244,10 +244,11 @@ def run(rep, tier, seed, keep=False):
         ctx = yaql.create_context()
         ng = 0
         for st in tlaval.parse_dump(dump + '.dump'):
-            t, s2l, n, out = st['tree'], bool(st['s2l']), int(st['n']), st['out']
-            key = (n, s2l)
+            t, s2l, t2l, n, out = st['tree'], bool(st['s2l']), bool(st['t2l']), int(st['n']), st['out']
+            key = (n, s2l, t2l)
             if key not in engs:
-                e = yaql.YaqlFactory().create(options={'yaql.limitIterators': n, 'yaql.convertSetsToLists': s2l, 'yaql.convertInputData': False})
+                e = yaql.YaqlFactory().create(options={'yaql.limitIterators': n, 'yaql.convertSetsToLists': s2l, 'yaql.convertTuplesToLists': t2l,
+                                                       'yaql.convertInputData': False})
                 engs[key] = e('$')
             try:
                 got = ('ok', engs[key].evaluate(data=build_wide(t), context=ctx.create_child_context()))
@@ -255,7 +256,7 @@ def run(rep, tier, seed, keep=False):
                 got = ('raises', type(e).__name__)
             ng += 1
             rep.evaluations += 1
-            case = {'tree': c10.short(t), 'N': n, 's2l': s2l}
+            case = {'tree': c10.short(t), 'N': n, 's2l': s2l, 't2l': t2l}
             if str(out['why']) == 'too-large':
                 if got != ('raises', 'CollectionTooLargeException'):
                     rep.violation('C08/result-shape/not-refused', 'limitIterators=%d: finalising %s gave %r, the model demands CollectionTooLargeException' % (
@@ -325,6 +326,8 @@ def run(rep, tier, seed, keep=False):
                   "[1, 2].select($s + $s)", "{a => concat($s, $s)}", "[1].select($s.replace('x', 'xyz'))", "$l.accumulate($1 + $2)", "generate($s, true, $ + $).take(20)",
                   "$d.set(k, $s + $s)", "$d.mergeWith({b => $s + $s})", "$s.toUpper() + $s.toLower()", "'{0}{0}'" if False else "format('{0}{0}', $s)",
                   "$l.select($).toList() + $l.toList()", "[[$s + $s]]", "$s.split('x').join('xx')", "$l.zip($l).select($[0])", "$s.len()", "let(y => $s + $s) -> 1",
+                  "dict($l.select([$, $]) + $l.select([-$ - 1, $])).len()", "dict($l.select([$, $]) + $l.select([-$ - 1, $])).containsKey(1)",
+                  "dict(($l + $l.select(-$ - 1)).select([$, 1]))", "($l + $l.select(-$ - 1)).toDict($, 1).len()", "dict($l.zip($l)).set(a, 1).len()",
                   "[$s + $s].len()", "$s + $s + $s + $s", "($s + $s).len()", "$l.toSet().union(($l + [99]).toSet())", "dict(a => $s).set(b, $s + $s)", "$s.trim() + $s.trimLeft()"]
         for q in (256, 1000, 4096, 65536):
             engine = yaql.YaqlFactory().create(options={'yaql.memoryQuota': q})
@@ -341,7 +344,9 @@ def run(rep, tier, seed, keep=False):
                             def mk(orig):
                                 def w(*a, **k):
                                     for x in list(a) + list(k.values()):
-                                        if isinstance(x, (str, list, tuple, dict, set, frozenset, bytes)) or type(x).__name__ == 'FrozenDict':
+                                        if type(x).__name__ == 'FrozenDict':
+                                            sizes.append(sys.getsizeof(getattr(x, '_d', x), 0))     # the mapping's own table, not the wrapper object
+                                        elif isinstance(x, (str, list, tuple, dict, set, frozenset, bytes)):
                                             sizes.append(sys.getsizeof(x, 0))
                                     return orig(*a, **k)
                                 return w
@@ -360,6 +365,10 @@ def run(rep, tier, seed, keep=False):
 
                     def deep(v):
                         out = []
+                        if type(v).__name__ == 'FrozenDict':
+                            out.append(sys.getsizeof(getattr(v, '_d', v), 0))
+                            for k, x in v.items():
+                                out += deep(k) + deep(x)
                         if isinstance(v, (str, list, tuple, dict, set)):
                             out.append(sys.getsizeof(v, 0))
                         if isinstance(v, dict):
